@@ -20,6 +20,12 @@ direct oracle:  an own tracer (independent of pymtl3's analysis and of the model
                 object paths it dereferences for reading, assigns to, and calls; every object reached must be covered by
                 the block's recorded set (the object itself, an ancestor, or a bit slice that contains the accessed bits);
                 a statically resolved index name that is a local variable of the function is a violation as well.
+rejections:     shapes the visitor refuses loudly (`REJECTS`: a display / parenthesised expression as base of a subscript ->
+                bare AssertionError, slice of a slice, slice in the middle, del) are replayed on every run: model and real visitor
+                must agree on the exception; recorded in the evidence (`astrw_observed_rejections`).
+                Known finding C02-lambda-name-collision: directed design, reported
+                through `ck.violation('missing-read-in-metadata', {'finding': 'lambda-name-collision'}, ...)` only for the shape
+                "two lambda blocks of one component class with the same mangled name" (recognised from the design).
 """
 import ast, hashlib, importlib, importlib.util, itertools, os, random, re, sys, types, warnings
 
@@ -29,9 +35,8 @@ from ..common.leanio import InfraError
 MODULE = 'PymtlVerif.Props.C02a'
 DRIVERS = ['astrw']
 THEOREMS = ['PV.C02a.' + t for t in [
-  'complete_partial', 'complete_calls_partial', 'exec_complete', 'exec_accesses', 'agree_body', 'objects_covered', 'sound',
-  'for_else_visited', 'if_elif_else_visited', 'children_visited', 'env_congr', 'enter_idem', 'enter_comm', 'body_append',
-  'gap_inner_compare', 'gap_inner_call', 'gap_inner_call_keyword', 'gap_unbound_name']]
+  'complete_partial', 'complete_fn', 'exec_complete', 'exec_accesses', 'agree_body', 'objects_covered', 'sound',
+  'for_else_visited', 'if_elif_else_visited', 'children_visited', 'env_congr', 'enter_idem', 'enter_comm', 'body_append']]
 THEOREM_MODULE = {t: MODULE for t in THEOREMS}
 TRUSTED = [
   'Model/AstRW.lean stands for AstHelper.DetectReadsWritesCalls (+ DetectVarNames._get_full_name_starting_py39, the variant '
@@ -44,15 +49,14 @@ TRUSTED = [
   'own statement-level interpreter on top of eval / exec',
 ]
 ASSUMPTIONS = [
-  'PARTIAL (extraction from source): completeness of the recorded read / write / call names is proved for the fragment '
-  '`supported` of Model/AstRW.lean and under `Agree` (a name the visitor resolves statically is constant during the execution); '
-  'outside it the real visitor loses accesses — Lean counter-examples PV.C02a.gap_inner_compare (`s.x[ s.a == 1 ].y`: index '
-  'kinds other than Attribute / Subscript / Name / Num / BinOp / UnaryOp / IfExp / Call are not visited when the index is followed '
-  'by a field, index or call), gap_inner_call / gap_inner_call_keyword (a call used as such an index: only its positional '
-  'arguments are visited, the call itself and its keyword arguments are not), gap_unbound_name (a parameter of an @s.func '
-  'function that has the name of a module-level integer is resolved to the module-level value); each is replayed on the real '
-  'code on every run (evidence: astrw_known_gaps) and confirmed, not reported; every decorated function of pymtl3/stdlib and '
-  'examples is inside the fragment (evidence: astrw_static_outside_supported = [])',
+  'PARTIAL (extraction from source): completeness of the recorded read / write / call names (PV.C02a.complete_partial / complete_fn / '
+  'exec_complete / objects_covered) has two hypotheses: `supported` — it only excludes shapes the visitor itself rejects (a slice that '
+  'is not the last subscript of a chain, a slice of a slice); that every body the visitor accepts is `supported` is NOT proved — and '
+  '`Agree` (a name the visitor resolves statically is constant during the execution and has the value the lookup uses: a property of '
+  'the block, not of the visitor; the direct oracle `local-index-resolved-statically` checks its syntactic part on every analysed '
+  'function). Every decorated function of pymtl3/stdlib and examples is `supported` (evidence: astrw_static_outside_supported = []). '
+  'objects_covered assumes that a slice is the last step of the accessed path. Names bound without a Name node (ast.arg, '
+  'ExceptHandler.name, ast.alias) are handed to the model as stored Name children of their node (c02_astrw.Conv)',
 ]
 RULE = ('extraction clause: (a) rtlgen designs; (b) every @update / @update_ff / @update_once / @s.func function in the source of '
         'pymtl3/stdlib and examples (not instantiated); (c) the c01_lib library designs; (d) shape families (one shape per block, 3-6 '
@@ -105,6 +109,11 @@ class Conv:
     if isinstance(n, ast.For):
       return ['for', self.node(n.target), self.node(n.iter), [self.node(x) for x in n.body], [self.node(x) for x in n.orelse]]
     cs = []
+    # names bound without a Name node (`enter` counts them as local): rendered as a stored Name child, which the visitor ignores
+    bound = n.arg if isinstance(n, ast.arg) else n.name if isinstance(n, ast.ExceptHandler) else \
+            (n.asname or n.name.split('.')[0]) if isinstance(n, ast.alias) else None
+    if bound:
+      self.names.add(bound); cs.append(['name', bound, 'S'])
     for name, v in ast.iter_fields(n):
       if isinstance(v, ast.AST):
         if not isinstance(v, _SKIP): cs.append(self.node(v))
@@ -163,7 +172,7 @@ def fn_request(func, tree, heap='nil', funcs=(), extra_vals=None):
   g = func.__globals__
   free = set(func.__code__.co_freevars)
   closure = sorted(x for x in cv.names if x in free)
-  globs = sorted(x for x in cv.names if x in g)
+  globs = sorted(x for x in cv.names | {a.arg for a in ast.walk(fdef.args) if isinstance(a, ast.arg)} if x in g)
   vals = []
   if heap != 'nil':
     cl = closure_values(func)
@@ -173,7 +182,8 @@ def fn_request(func, tree, heap='nil', funcs=(), extra_vals=None):
     for x in globs:
       v = g.get(x)
       if isinstance(v, int): vals.append([0, x, int(v)])
-  line = leanio.line('astrw', 'full', ['closure'] + closure, ['globals'] + globs, ['body'] + body, heap,
+  params = sorted({x.arg for x in ast.walk(fdef.args) if isinstance(x, ast.arg)})
+  line = leanio.line('astrw', 'full', ['closure'] + closure, ['globals'] + globs, ['params'] + params, ['body'] + body, heap,
                      ['funcs'] + sorted(funcs), ['vals'] + vals)
   return line, cv
 
@@ -185,7 +195,7 @@ def closure_values(func):
   return out
 
 def parse_reply(rep):
-  """-> ('err', e) | ('ok', rd, wr, fc, (sup, supc), objs or None)"""
+  """-> ('err', e) | ('ok', rd, wr, fc, supported, objs or None)"""
   if rep.startswith('err '): return ('err', rep.split()[1])
   t = leanio.parse_sexp(rep)
   if t[0] != 'ok' or t[1][0] != 'rd' or t[2][0] != 'wr' or t[3][0] != 'fc' or t[4][0] != 'sup':
@@ -194,7 +204,7 @@ def parse_reply(rep):
   if len(t) > 5:
     if t[5] != 'objs': raise InfraError(f'unexpected reply {rep[:200]}')
     objs = t[6:9]
-  return ('ok', parse_recs(t[1][1:]), parse_recs(t[2][1:]), parse_recs(t[3][1:]), (t[4][1] == '1', t[4][2] == '1'), objs)
+  return ('ok', parse_recs(t[1][1:]), parse_recs(t[2][1:]), parse_recs(t[3][1:]), t[4][1] == '1', objs)
 
 def show(recs):
   def idx(i): return '*' if i == '*' else str(i) if isinstance(i, int) else (('closure ' if i[1] else 'global ') + i[2]) if i[0] == 'v' else f'{idx(i[1])}:{idx(i[2])}' if i[0] == 'sl' else str(i)
@@ -289,7 +299,7 @@ def run_static(ck):
     line, cv = fn_request(func, tree)
     lines.append(line); meta.append((rel, fd, func, tree, cv))
   reps = ck.drv('astrw').batch(lines)
-  outside, outside_calls, kinds, nflag = [], [], {}, 0
+  outside, kinds, nflag = [], {}, 0
   for (rel, fd, func, tree, cv), rep in zip(meta, reps):
     case = {'astrw': 'static', 'file': rel, 'function': fd.name, 'line': fd.lineno}
     ck.count({'astrw-static': rel, 'fn': fd.name, 'line': fd.lineno}, True)
@@ -298,17 +308,15 @@ def run_static(ck):
       nflag += 1; ck.hist('astrw_static', 'not-expressible:' + cv.flags[0]); continue
     real = real_extract(func, tree); model = parse_reply(rep)
     compare_names(ck, case, real, model)
+    check_local_index_names(ck, case, {'m': rel}, fd.name, func, real)
     if model[0] == 'ok':
-      sup, supc = model[4]
-      ck.hist('astrw_static', 'supported' if supc else 'supported-reads-writes-only' if sup else 'outside-supported')
-      if not sup: outside.append(f'{rel}:{fd.lineno} {fd.name}')
-      elif not supc: outside_calls.append(f'{rel}:{fd.lineno} {fd.name}')
+      ck.hist('astrw_static', 'supported' if model[4] else 'outside-supported')
+      if not model[4]: outside.append(f'{rel}:{fd.lineno} {fd.name}')
     else:
       ck.hist('astrw_static', 'rejected:' + model[1])
   ck.extra_cov['astrw_static_functions'] = len(fns)
   ck.extra_cov['astrw_static_not_expressible'] = nflag
   ck.extra_cov['astrw_static_outside_supported'] = outside
-  ck.extra_cov['astrw_static_calls_outside_supported'] = outside_calls
   ck.extra_cov['astrw_static_node_kinds'] = dict(sorted(kinds.items()))
   if len(fns) < 150: raise InfraError(f'only {len(fns)} decorated functions found under pymtl3/stdlib and examples')
 
@@ -430,9 +438,10 @@ def compare_function(ck, rep, mt):
       ck.disagreement('per-class cache (_name_rd / _name_wr / _name_fc) vs a fresh run of the real visitor on the cached ast', case,
                       'n/a', {'cached': [show(x) for x in cc[1:4]], 'fresh': [show(x) for x in real[1:4]]})
   if model[0] != 'ok' or real[0] != 'ok': return model
-  sup, supc = model[4]
-  ck.hist('astrw_fn', 'supported' if supc else 'supported-reads-writes-only' if sup else 'outside-supported')
+  ck.hist('astrw_fn', 'supported' if model[4] else 'outside-supported')
   # model lookup vs the real sets
+  if name in c.get('collide', ()):
+    ck.hist('astrw_lookup', 'skipped:lambda-name-collision'); return model
   pre = 'upblk_' if is_blk else 'func_'
   for k, tab in enumerate(('reads', 'writes', 'calls')):
     realset = c['tabs'][pre + tab].get(fn)
@@ -748,6 +757,12 @@ def trace_component(ck, case, c_ref, m_sim, states):
           key = (name, kind, repr(obj), rng)
           if key in reported: continue
           reported.add(key)
+          if kind == 'rd' and name in c_ref.get('collide', ()):
+            ck.violation('missing-read-in-metadata', {'finding': 'lambda-name-collision'}, dict(case, component=repr(m_ref), function=name),
+                         {'executed': path_text(root, steps), 'object': repr(obj), 'recorded': sorted(repr(x) for x in sets[kind]),
+                          'oracle': 'every signal the running block reads is in its recorded set',
+                          'shape': 'two `//= lambda` blocks of one component class with the same mangled block name'})
+            continue
           ck.violation('access-not-recorded', {'what': 'astrw', 'kind': kind}, dict(case, component=repr(m_ref), function=name),
                        {'executed': path_text(root, steps), 'object': repr(obj) + (f'[{rng[0]}:{rng[1]}]' if rng else ''),
                         'recorded': sorted(repr(x) for x in sets[kind]),
@@ -809,6 +824,12 @@ class {cls}( Component ):
     @s.func
     def hbit( t ):
       return s.c[ t ]
+    @s.func
+    def hp( i ):
+      return s.v[ i ]
+    @s.func
+    def hq( k, j=1 ):
+      return s.m[ j ][ k ] + s.ps[ k ].a
 '''
 
 def _shapes():
@@ -831,7 +852,9 @@ def _shapes():
   @shape
   def shadow(r, o):
     v = r.choice(['i', 'j', 'k', 'q'])
-    kind = r.choice(['tuple', 'tuple', 'comp', 'comp', 'for', 'assign', 'ann', 'nested-tuple', 'walrus', 'gen'])
+    kind = r.choice(['tuple', 'tuple', 'comp', 'comp', 'for', 'assign', 'ann', 'nested-tuple', 'walrus', 'gen', 'param', 'param', 'param2'])
+    if kind == 'param': return one(o), 'update', [r.choice([f's.{o} @= hp( 2 ) + hp( s.sel )', f's.{o} @= hp( 3 )', f's.{o} @= hp( s.lo )'])]
+    if kind == 'param2': return one(o), 'update', [r.choice([f's.{o} @= hq( 1 )', f's.{o} @= hq( s.lo[0], 0 )', f's.{o} @= hq( k=1, j=s.sel[1] )'])]
     if kind == 'tuple': return lst(o), 'update', [f'for {v}, x in enumerate( [ 1, 2, 3, 4 ] ):', f'  s.{o}[ {v} ] @= s.v[ {v} ] + x']
     if kind == 'nested-tuple': return lst(o), 'update', [f'for ( {v}, x ), y in zip( enumerate( [ 4, 3, 2, 1 ] ), [ 1, 1, 2, 2 ] ):', f'  s.{o}[ {v} ] @= s.v[ {v} ] + x + y']
     if kind == 'comp': return one(o), 'update', [f't = [ s.v[ {v} ] for {v} in range( 1, 4 ) ]', f's.{o} @= t[0] + t[1] + t[2]']
@@ -845,7 +868,13 @@ def _shapes():
     e = r.choice(['s.m[ s.sel[0] ][ s.sel[1] ]', 's.ps[ s.sel ].a', 'zext( s.ps[ s.sel ].b[0:2], 8 )', 's.v[ s.sel + 1 ]', 's.v[ ~s.sel ]',
                   's.v[ s.sel if s.c[0] else s.lo ]', 's.ps[ s.sel + 1 ].a', 's.ps[ s.lo if s.c[0] else s.sel ].a', 's.m[ s.c[ s.lo ] ][ s.c[ s.sel ] ]',
                   's.ps[ s.v[ s.sel ][0:2] ].a', 'zext( s.ps[ ~s.lo ].b[ s.sel[0] ], 8 )', 's.ps[ int( s.sel ) ].a', 's.v[ hsel() ]',
-                  's.m[ int( s.lo[0] ) ][ hbit( 1 ) ]', 's.v[ s.ps[ s.lo ].b[0:2] ]', 's.m[ s.sel[0] & s.lo[0] ][ ~s.lo[1] ]'])
+                  's.m[ int( s.lo[0] ) ][ hbit( 1 ) ]', 's.v[ s.ps[ s.lo ].b[0:2] ]', 's.m[ s.sel[0] & s.lo[0] ][ ~s.lo[1] ]',
+                  # a call inside an index that is followed by a field / index / slice
+                  's.ps[ hsel() ].a', 'zext( s.v[ hsel() ][0:4], 8 )', 's.m[ hbit( 0 ) ][ hbit( 3 ) ]', 'zext( s.ps[ int( s.sel ) ].b[0:2], 8 )',
+                  's.ps[ zext( value=s.sel[0], new_width=2 ) ].a', 's.ps[ hsel() ].a + s.m[ hbit( t=s.lo ) ][ 1 ]', 'zext( s.ps[ hsel() ].b[ hbit( 1 ) ], 8 )',
+                  # any other expression inside an index that is followed by a field / index / slice
+                  's.ps[ s.sel == 1 ].a', 'zext( s.v[ s.sel[0] == s.lo[1] ][0:4], 8 )', 's.m[ s.c[0] and s.c[1] ][ s.lo > 1 ]', 's.ps[ ( t := s.sel ) ].a',
+                  's.m[ s.sel != 2 ][ not s.lo[0] ]', 's.ps[ s.c[0] or s.lo[0] ].a', 's.ps[ s.sel < s.lo ].a + s.ps[ 1 if s.c[3] else s.lo ].a'])
     return one(o), r.choice(['update', 'update', 'update_ff']), [f's.{o} @= {e}']
   @shape
   def consts(r, o):
@@ -936,6 +965,14 @@ def process(ck, case, build, lines, meta, rng, trace=True, rounds=2):
   ref = build()
   snap = elaborate_with_snapshot(ref)
   nfn = 0
+  # two `//= lambda` blocks of one class whose targets mangle to the same block name share one per-class cache entry
+  # (known finding C02-lambda-name-collision): the shape is recognised here, from the design alone
+  lam = {}
+  for c in snap.comps:
+    for name in c['m']._dsl.lambda_info: lam.setdefault((type(c['m']), name), []).append(c)
+  for (cls_, name), cs in lam.items():
+    if len(cs) > 1:
+      for c in cs: c.setdefault('collide', set()).add(name)
   for c in snap.comps: nfn += check_component(ck, case, c, lines, meta)
   ck.count({'astrw': case.get('astrw'), 'design': case.get('design') or hashlib.sha256(case.get('source', '').encode()).hexdigest()[:12]}, nfn > 0)
   if not trace or nfn == 0: return
@@ -963,49 +1000,64 @@ def finish(ck, lines, meta):
   del lines[:]; del meta[:]
 
 # ---------------------------------------------------------------------------------------------
-# known gaps of the visitor: the counter-examples of Props/C02a.lean on the real code
+# observed rejections: shapes the visitor refuses loudly (recorded in the evidence; model and real visitor must agree)
 # ---------------------------------------------------------------------------------------------
-GAPS = [
-  # (name of the Lean counter-example, extra @s.func lines, block body, supported flags the model must report)
-  ('gap_inner_compare', [], ['s.g0 @= s.ps[ s.sel == 1 ].a'], (False, False)),
-  ('gap_inner_call', [], ['s.g0 @= s.ps[ hsel() ].a'], (True, False)),
-  ('gap_inner_call_keyword', [], ['s.g0 @= s.ps[ zext( value=s.sel[0], new_width=2 ) ].a'], (False, False)),
-  ('gap_unbound_name', ['@s.func', 'def hp( i ):', '  return s.v[ i ]'], ['s.g0 @= hp( 2 )'], (True, True)),
+REJECTS = [
+  # a subscript whose base is a display or a parenthesised expression: `assert isinstance( node, ast.Str )` in _get_full_name
+  ('display-base', 's.o @= [ s.a, s.b ][ s.sel ]', 'badBase'),
+  ('parenthesised-base', 's.o @= ( s.a + s.b )[0:4]', 'badBase'),
+  ('dict-display-base', 's.o @= { 0: s.a }[ 0 ]', 'badBase'),
+  ('slice-of-slice', 's.o @= s.a[ 0 : 4 ][ 0 : 2 ]', 'multiSlice'),
+  ('slice-in-the-middle', 's.o @= s.v[ 0 : 2 ][ 1 ]', 'sliceInMiddle'),
+  ('del', 'del s.a', 'badCtx'),
 ]
 
-class Sink:
-  """a Check that keeps violations to itself (the gaps are known; they are confirmed, not reported)"""
-  def __init__(self, ck): self.ck = ck; self.violations = []
-  def violation(self, kind, sig, case, detail): self.violations.append((kind, sig, case, detail))
-  def __getattr__(self, k): return getattr(self.ck, k)
-
-def run_gaps(ck, rng):
+def run_rejects(ck):
+  lines, meta = [], []
+  for name, body, err in REJECTS:
+    tree = ast.parse('def blk():\n  ' + body + '\n')
+    func = types.SimpleNamespace(__globals__={}, __code__=types.SimpleNamespace(co_freevars=('s',)), __name__='blk', __closure__=None)
+    line, cv = fn_request(func, tree)
+    lines.append(line); meta.append((name, body, err, func, tree))
   res = {}
-  for name, helper, body, sup in GAPS:
-    uid = next(_uid)
-    cls = f'Gap{uid}_Top'
-    src = SHAPE_HEAD.format(uid=uid, cls=cls, cv=1, cw=2) + '    s.g0 = OutPort( Bits8 )\n' + ''.join(f'    {l}\n' for l in helper) + \
-          '    @update\n    def up_gap():\n' + ''.join(f'      {l}\n' for l in body)
-    C = load_src(ck.workdir, src, cls)
-    sink = Sink(ck)
-    lines, meta = [], []
-    process(sink, {'astrw': 'gap', 'gap': name, 'source': src, 'top': cls}, C, lines, meta, rng, rounds=4)
-    reps = ck.drv('astrw').batch(lines)
-    flags = None
-    for rep, mt in zip(reps, meta):
-      model = compare_function(ck, rep, mt)              # model vs real must still agree: reported as usual
-      check_local_index_names(sink, mt[0], mt[1], mt[3], mt[4], real_extract(mt[4], mt[6]))
-      if mt[3] in ('up_gap', 'hp') and model and model[0] == 'ok' and (flags is None or mt[3] == 'up_gap'): flags = model[4]
-    ok = bool(sink.violations)
-    res[name] = {'uncovered_access_reproduced': ok, 'model_supported_flags': list(flags or ()),
-                 'first': (sink.violations[0][3].get('executed') or str(sink.violations[0][3].get('names'))) if ok else None}
-    ck.hist('astrw_gap', f'{name}:' + ('reproduced' if ok else 'not-reproduced'))
-    if flags is not None and tuple(flags) != sup:
-      ck.disagreement('supported flags of a known gap', {'astrw': 'gap', 'gap': name, 'source': src}, list(flags), list(sup))
-  ck.extra_cov['astrw_known_gaps'] = res
+  for (name, body, err, func, tree), rep in zip(meta, ck.drv('astrw').batch(lines)):
+    real = real_extract(func, tree); model = parse_reply(rep)
+    compare_names(ck, {'astrw': 'reject', 'shape': name, 'body': body}, real, model)
+    res[name] = {'source': body, 'real': real[1] if real[0] == 'err' else 'accepted', 'model': model[1] if model[0] == 'err' else 'accepted'}
+    ck.hist('astrw_reject', f'{name}:' + (real[1] if real[0] == 'err' else 'accepted'))
+  ck.extra_cov['astrw_observed_rejections'] = res
 
 # ---------------------------------------------------------------------------------------------
 DIRECTED = [
+  # known finding C02-lambda-name-collision (known_replays/C02-R13-helper-call-in-index-and-lambda-name.py, class LambdaNames)
+  ('lambda-name-collision', '''from pymtl3 import *
+
+class ArSel( Component ):
+  def construct( s, which ):
+    s.a = InPort( 8 )
+    s.b = InPort( 8 )
+    s.out = OutPort( 8 )
+    if which == 0:
+      s.out //= lambda: s.a + 1
+    else:
+      s.out //= lambda: s.b + 1
+
+class ArLambdaNames_Top( Component ):
+  def construct( s ):
+    s.in_ = InPort( 8 )
+    s.wa = Wire( 8 )
+    s.wb = Wire( 8 )
+    s.x    = [ ArSel( 0 ) ]
+    s.x_0_ = ArSel( 1 )
+    s.x[0].a //= s.wa
+    s.x[0].b //= s.wb
+    s.x_0_.a //= s.wa
+    s.x_0_.b //= s.wb
+    @update
+    def up_wa(): s.wa @= s.in_ + 1
+    @update
+    def up_wb(): s.wb @= s.in_ + 2
+''', 'ArLambdaNames_Top'),
   # the three repaired shapes and the seeded ones, fixed text (the randomised families draw the same shapes)
   ('kwargs+callbase+shadow', '''from pymtl3 import *
 
@@ -1057,7 +1109,7 @@ def run(ck):
   rng = random.Random(f'{ck.seed}:{getattr(ck, "pid", "C02")}:astrw:{ck.tier}')
   quick = ck.tier == 'quick'
   run_static(ck)
-  run_gaps(ck, rng)
+  run_rejects(ck)
   lines, meta = [], []
   before = set(sys.modules)
   for tag, src, top in DIRECTED:
@@ -1082,6 +1134,8 @@ def run(ck):
   for k in set(sys.modules) - before:
     if k.startswith(('pvar_', 'pvgen_')): del sys.modules[k]
   ck.extra_cov['astrw_designs'] = {'directed': len(DIRECTED), 'shapes': nshape, 'rtlgen': ngen, 'library': nlib}
+  ck.extra_cov['astrw_violations'] = sum(1 for v in ck.violations if isinstance(v.case, dict) and v.case.get('astrw'))
+  ck.extra_cov['astrw_disagreements'] = sum(1 for b in ck.breaks if isinstance(b.get('case'), dict) and b['case'].get('astrw'))
 
 def replay(ck, data):
   from . import c01_lib
